@@ -115,7 +115,7 @@ G_ShSleep == pc[SH] = "sh_sleep" /\ now >= ShutdownAt
 ShSleep ==     \* shutdown() is called; first visible op: executor._lock (as shipped) / the gate (repaired)
   /\ G_ShSleep
   /\ pc' = [pc EXCEPT ![SH] = IF AsShipped_D2 THEN "sh_lock1" ELSE "sh_gate"]
-  /\ Emit(<<Ev("ShutdownCall", "-", "shutdown", now, -1, -1, 1, -1, -1, "top", <<>>)>>)
+  /\ Emit(<<Ev("ShutdownCall", "-", "shutdown", now, -1, -1, 1, 0, 0, "top", <<>>)>>)
   /\ actor' = SH
   /\ UNCHANGED <<cfg, gate, lock, isdown, tracked, fst, edl, now>>
 
